@@ -113,7 +113,7 @@ def per_base_post(I, self_annot, result_annot, start, stop):
     if not isinstance(feats, PSet) or feats.summary is None:
         raise Unsupported("result annotation is not a map summary")
     S = feats.summary
-    if S.source is not self_annot.attrs["_features"]:
+    if S.source is not self_annot.attrs["_features"].origin:
         return [("source", False)]
     f = S.elem
     p = I.ctx.fresh_int("p")
@@ -130,7 +130,7 @@ def per_base_post(I, self_annot, result_annot, start, stop):
         out.append((f"qual#{ci}", implies(cond, natives.eq(I, nf.attrs["_qual"], f.attrs["_qual"]))))
         locs = nf.attrs["_locs"]
         S2 = getattr(locs, "summary", None)
-        if S2 is None or S2.source is not f.attrs["_locs"]:
+        if S2 is None or S2.source is not f.attrs["_locs"].origin:
             out.append((f"locs_from_feature#{ci}", False))
             continue
         loc = S2.elem
@@ -209,3 +209,255 @@ CASES = [
 ]
 
 MIN_OBLIGATIONS = 20
+
+
+# ==========================================================================
+# AnnotatedSequence: abstract biological sequence (assumed contract of
+# Sequence: code array as an SMT sequence, Python slice semantics)
+
+from pyvc.heap import Class, Native, BoundMethod
+from pyvc.interp import Raised
+
+IntSeq = z3.SeqSort(z3.IntSort())
+rev_f = z3.Function("rev", IntSeq, IntSeq)
+comp_f = z3.Function("comp", IntSeq, IntSeq)
+
+
+def seq_class(I):
+    c = I.ghost.get("AbsSequence")
+    if c is not None:
+        return c
+
+    def meth(fn):
+        n = Native(fn.__name__, lambda I_, a, k: fn(I_, *a, **k))
+        n.is_method = True
+        return n
+
+    def mk(codes):
+        return Obj(cls, {"codes": codes})
+
+    def __len__(I_, self):
+        return z3.Length(self.attrs["codes"])
+
+    def __getitem__(I_, self, index):
+        codes = self.attrs["codes"]
+        n = z3.Length(codes)
+        if isinstance(index, SliceObj):
+            start, stop, step = natives.slice_indices(I_, index, n)
+            if step != 1:
+                raise Unsupported("sequence slice with a step")
+            ln = z3.If(zint(stop) > zint(start), zint(stop) - zint(start), 0)
+            return mk(z3.SubSeq(codes, zint(start), ln))
+        j = natives.norm_index(I_, index, n, "sequence index")
+        return codes[zint(j)]
+
+    def __setitem__(I_, self, index, item):
+        codes = self.attrs["codes"]
+        n = z3.Length(codes)
+        if isinstance(index, SliceObj):
+            start, stop, step = natives.slice_indices(I_, index, n)
+            ln = z3.If(zint(stop) > zint(start), zint(stop) - zint(start), 0)
+            new = item.attrs["codes"]
+            if not I_.ctx.branch(z3.Length(new) == ln):
+                raise Raised(I_.make_exc("ValueError", "could not broadcast input array"))
+            self.attrs["codes"] = z3.Concat(z3.SubSeq(codes, 0, zint(start)), new,
+                                            z3.SubSeq(codes, zint(start) + ln, n - zint(start) - ln))
+            return None
+        j = natives.norm_index(I_, index, n, "sequence index")
+        self.attrs["codes"] = z3.Concat(z3.SubSeq(codes, 0, zint(j)), z3.Unit(zint(item)),
+                                        z3.SubSeq(codes, zint(j) + 1, n - zint(j) - 1))
+
+    def copy(I_, self, new_seq_code=None):
+        if new_seq_code is not None:
+            return mk(z3.Empty(IntSeq))
+        return mk(self.attrs["codes"])
+
+    def reverse(I_, self, copy=True):
+        c = self.attrs["codes"]
+        r = rev_f(c)
+        I_.ctx.assume(z3.And(z3.Length(r) == z3.Length(c), rev_f(r) == c))
+        return mk(r)
+
+    def complement(I_, self):
+        c = self.attrs["codes"]
+        r = comp_f(c)
+        I_.ctx.assume(z3.And(z3.Length(r) == z3.Length(c), comp_f(r) == c))
+        return mk(r)
+
+    def __iadd__(I_, self, other):
+        return mk(z3.Concat(self.attrs["codes"], other.attrs["codes"]))
+
+    def __eq__(I_, self, other):
+        if not (isinstance(other, Obj) and other.cls is cls):
+            return False
+        return self.attrs["codes"] == other.attrs["codes"]
+    ns = {f.__name__: meth(f) for f in (__len__, __getitem__, __setitem__, copy, reverse, complement, __iadd__, __eq__)}
+    ns["__add__"] = ns["__iadd__"]
+    cls = Class("AbsSequence", (), ns, None, "user")
+    I.ghost["AbsSequence"] = cls
+    I.ctx.trusted.add("Sequence contract: code array as SMT sequence; __getitem__/__setitem__ follow Python/NumPy slice semantics, "
+                      "copy() equal codes, reverse()/complement() are length-preserving involutions (uninterpreted), += concatenates")
+    return cls
+
+
+def mk_annot_seq(I, with_bounds=True):
+    AS = get_class(I, ANN, "AnnotatedSequence")
+    codes = z3.Const("codes", IntSeq)
+    seq = Obj(seq_class(I), {"codes": codes})
+    ss = sym_int(I, "seqstart", 1, MAXSIZE // 4)
+    n = z3.Length(codes)
+
+    def mk_loc_in(I_, tag):
+        loc = mk_loc(I_, tag)
+        # features of an annotated sequence lie on the sequence
+        I_.ctx.assume(z3.And(loc.attrs["_first"] >= ss, loc.attrs["_last"] <= ss + n - 1))
+        return loc
+
+    def mk_feat_in(I_, tag):
+        return mk_feature(I_, tag, locs=AbsColl(tag + "_locs", mk_loc_in, kind="frozenset"))
+    Ann = get_class(I, ANN, "Annotation")
+    annot = Obj(Ann, {"_features": AbsColl("annot_features", mk_feat_in, kind="set")})
+    obj = Obj(AS, {"_annotation": annot, "_sequence": seq, "_seqstart": ss})
+    return obj, annot, seq, ss, codes
+
+
+def setup_aseq_slice(I):
+    obj, annot, seq, ss, codes = mk_annot_seq(I)
+    n = z3.Length(codes)
+    start = opt_int(I, "start", 1, MAXSIZE // 2)
+    stop = opt_int(I, "stop", 1, MAXSIZE // 2)
+    lo = start if start is not None else ss
+    hi = stop if stop is not None else ss + n
+    I.ctx.assume(z3.And(ss <= lo, lo <= hi, hi <= ss + n))
+    return {"args": [obj, SliceObj(start, stop, None)],
+            "ghost": {"start": start, "stop": stop, "ss": ss, "codes": codes, "annot": annot, "lo": lo, "hi": hi}}
+
+
+def ens_aseq_slice(I, env):
+    v = env.vars
+    res = v["result"]
+    out = []
+    out.append(("is_annotated_sequence", isinstance(res, Obj) and res.cls.name == "AnnotatedSequence"))
+    if not (isinstance(res, Obj) and res.cls.name == "AnnotatedSequence"):
+        return out
+    lo, hi, ss, codes = v["lo"], v["hi"], v["ss"], v["codes"]
+    rs = res.attrs["_sequence"]
+    out.append(("subsequence", rs.attrs["codes"] == z3.SubSeq(codes, zint(lo) - ss, zint(hi) - zint(lo))))
+    out.append(("sequence_start", natives.eq(I, res.attrs["_seqstart"], lo)))
+    # per-base model in location coordinates: bases lo .. hi-1 (an open bound is the sequence end / start)
+    for name, g in per_base_post(I, v["annot"], res.attrs["_annotation"],
+                                 v["start"], v["stop"] if v["stop"] is not None else None):
+        out.append(("annotation." + name, g))
+    return out
+
+
+def setup_aseq_int(I):
+    obj, annot, seq, ss, codes = mk_annot_seq(I)
+    idx = sym_int(I, "index")
+    I.ctx.assume(z3.And(idx >= ss, idx < ss + z3.Length(codes)))
+    return {"args": [obj, idx], "ghost": {"ss": ss, "codes": codes, "idx": idx}}
+
+
+def setup_copy(I):
+    obj, annot, seq, ss, codes = mk_annot_seq(I)
+    return {"args": [obj], "ghost": {"orig": obj, "ss": ss, "codes": codes, "annot": annot, "seq": seq}}
+
+
+def ens_copy(I, env):
+    v = env.vars
+    res = v["result"]
+    out = [("is_annotated_sequence", isinstance(res, Obj) and res.cls.name == "AnnotatedSequence")]
+    if not out[0][1]:
+        return out
+    rs = res.attrs["_sequence"]
+    ok_seq = isinstance(rs, Obj) and rs.cls.name == "AbsSequence"
+    out.append(("sequence_is_a_sequence", ok_seq))
+    if ok_seq:
+        out.append(("sequence_equal", rs.attrs["codes"] == v["codes"]))
+        out.append(("sequence_independent", rs is not v["seq"]))
+    out.append(("sequence_start", natives.eq(I, res.attrs["_seqstart"], v["ss"])))
+    ra = res.attrs["_annotation"]
+    out.append(("annotation_independent", ra is not v["annot"] and ra.attrs["_features"] is not v["annot"].attrs["_features"]))
+    return out
+
+
+def setup_revcomp(I):
+    obj, annot, seq, ss, codes = mk_annot_seq(I)
+    rs = sym_int(I, "rev_start", 1, MAXSIZE // 4)
+    return {"args": [obj, rs], "ghost": {"orig": obj, "ss": ss, "codes": codes, "annot": annot, "rs": rs}}
+
+
+def ens_revcomp(I, env):
+    """position / strand / defect mapping, and: applying it twice restores the original"""
+    v = env.vars
+    res = v["result"]
+    Loc = loc_cls(I)
+    D = Loc.ns["Defect"].members
+    St = Loc.ns["Strand"].members
+    out = []
+    n = z3.Length(v["codes"])
+    out.append(("sequence", res.attrs["_sequence"].attrs["codes"] == comp_f(rev_f(v["codes"]))))
+    out.append(("sequence_start", natives.eq(I, res.attrs["_seqstart"], v["rs"])))
+    feats = res.attrs["_annotation"].attrs["_features"]
+    S = getattr(feats, "summary", None)
+    if S is None or S.source is not v["annot"].attrs["_features"].origin:
+        return out + [("features_from_annotation", False)]
+    f = S.elem
+    for ci, (cond, items) in enumerate(S.cases):
+        out.append((f"one_feature#{ci}", implies(cond, len(items) == 1)))
+        for nf in items:
+            out.append((f"key#{ci}", implies(cond, natives.eq(I, nf.attrs["_key"], f.attrs["_key"]))))
+            out.append((f"qual#{ci}", implies(cond, natives.eq(I, nf.attrs["_qual"], f.attrs["_qual"]))))
+            S2 = getattr(nf.attrs["_locs"], "summary", None)
+            if S2 is None or S2.source is not f.attrs["_locs"].origin:
+                out.append((f"locs_from_feature#{ci}", False))
+                continue
+            loc = S2.elem
+            for cj, (c2, its) in enumerate(S2.cases):
+                h = z3.And(cond, c2)
+                out.append((f"one_loc#{ci}.{cj}", implies(h, len(its) == 1)))
+                for l in its:
+                    # base p of the original is base (ss + n - 1 - p) + rs of the reverse complement
+                    out.append((f"first#{ci}.{cj}", implies(h, zint(l.attrs["_first"]) == (v["ss"] + n - 1 - zint(loc.attrs["_last"])) + v["rs"])))
+                    out.append((f"last#{ci}.{cj}", implies(h, zint(l.attrs["_last"]) == (v["ss"] + n - 1 - zint(loc.attrs["_first"])) + v["rs"])))
+                    out.append((f"strand_flipped#{ci}.{cj}", implies(h, natives.neg(natives.eq(I, l.attrs["_strand"], loc.attrs["_strand"])))))
+                    nd, od = l.attrs["_defect"], loc.attrs["_defect"]
+                    for a, b in (("MISS_LEFT", "MISS_RIGHT"), ("MISS_RIGHT", "MISS_LEFT"), ("BEYOND_LEFT", "BEYOND_RIGHT"),
+                                 ("BEYOND_RIGHT", "BEYOND_LEFT"), ("UNK_LOC", "UNK_LOC"), ("BETWEEN", "BETWEEN")):
+                        out.append((f"defect_{a}#{ci}.{cj}", implies(h, iff(bv_has(nd, D[a]), bv_has(od, D[b])))))
+    # involution: reverse_complement(sequence_start = original start) of the result
+    rc = get_class(I, ANN, "AnnotatedSequence").ns["reverse_complement"]
+    back = I.call(BoundMethod(rc, res), [v["ss"]], {})
+    out.append(("twice.sequence", back.attrs["_sequence"].attrs["codes"] == comp_f(rev_f(comp_f(rev_f(v["codes"]))))))
+    out.append(("twice.sequence_start", natives.eq(I, back.attrs["_seqstart"], v["ss"])))
+    S = getattr(back.attrs["_annotation"].attrs["_features"], "summary", None)
+    if S is None or S.source is not v["annot"].attrs["_features"].origin:
+        return out + [("twice.features_from_annotation", False)]
+    f = S.elem
+    for ci, (cond, items) in enumerate(S.cases):
+        out.append((f"twice.one_feature#{ci}", implies(cond, len(items) == 1)))
+        for nf in items:
+            S2 = getattr(nf.attrs["_locs"], "summary", None)
+            if S2 is None:
+                out.append((f"twice.locs#{ci}", False))
+                continue
+            loc = S2.elem
+            for cj, (c2, its) in enumerate(S2.cases):
+                h = z3.And(cond, c2)
+                out.append((f"twice.one_loc#{ci}.{cj}", implies(h, len(its) == 1)))
+                for l in its:
+                    for fld in ("_first", "_last", "_strand", "_defect"):
+                        out.append((f"twice.restored{fld}#{ci}.{cj}", implies(h, natives.eq(I, l.attrs[fld], loc.attrs[fld]))))
+    return out
+
+
+CASES += [
+    Case(ANN + "::AnnotatedSequence.__getitem__", "slice", setup=setup_aseq_slice,
+         ensures=[("slice", ens_aseq_slice)], timeout=20),
+    Case(ANN + "::AnnotatedSequence.__getitem__", "int", setup=setup_aseq_int,
+         ensures=[("symbol", lambda I, env: natives.eq(I, env.vars["result"], env.vars["codes"][env.vars["idx"] - env.vars["ss"]]))]),
+    Case("copyable.py::Copyable.copy", "AnnotatedSequence", setup=setup_copy,
+         ensures=[("copy", ens_copy)]),
+    Case(ANN + "::AnnotatedSequence.reverse_complement", setup=setup_revcomp,
+         ensures=[("reverse_complement", ens_revcomp)], timeout=20),
+]
